@@ -167,6 +167,82 @@ fn permutations(n: usize) -> Vec<Vec<usize>> {
     out
 }
 
+/// "--- name.sy\n<text>" sections (as printed in details) back into a file map; plain text is main.sy
+fn files_json(text: &str) -> serde_json::Map<String, serde_json::Value> {
+    let mut files = serde_json::Map::new();
+    if !text.starts_with("--- ") {
+        files.insert(MAIN.to_string(), json!(text));
+        return files;
+    }
+    let mut name = String::new();
+    let mut cur = String::new();
+    for line in text.split_inclusive('\n') {
+        if let Some(n) = line.strip_prefix("--- ") {
+            if !name.is_empty() {
+                files.insert(format!("/p/{}", name), json!(cur));
+            }
+            name = n.trim().to_string();
+            cur = String::new();
+        } else {
+            cur.push_str(line);
+        }
+    }
+    files.insert(format!("/p/{}", name), json!(cur));
+    files
+}
+
+/// entry point and isolation across files: main uses two modules that each define their own `start` and their own
+/// `g`; whatever the order of main's statements (including the `use` lines) and of each module's statements, main's
+/// `start` is the entry and sees main's `g`.
+fn entry_family(acc: &mut Stats) {
+    let main_items = ["use a", "use b", "g :: 1", "start :: fn do\n    print(g + a.g + b.g)\n    a.start()\nend"];
+    let a_items = ["print: fn *X -> void : external", "g :: 10", "start :: fn do\n    print(\"a\")\nend"];
+    let b_items = ["print: fn *X -> void : external", "g :: 100", "start :: fn do\n    print(\"b\")\nend", "use a"];
+    let want = vec!["111".to_string(), "a".to_string()];
+    let mut distinct = std::collections::BTreeSet::new();
+    for mp in permutations(main_items.len()) {
+        for ap in permutations(a_items.len()) {
+            for bp in permutations(b_items.len()) {
+                let join = |items: &[&str], perm: &Vec<usize>| perm.iter().map(|k| items[*k]).collect::<Vec<_>>().join("\n") + "\n";
+                let mut files = Files::new();
+                files.insert(MAIN.to_string(), format!("print: fn *X -> void : external\n{}", join(&main_items, &mp)));
+                files.insert("/p/a.sy".to_string(), join(&a_items, &ap));
+                files.insert("/p/b.sy".to_string(), join(&b_items, &bp));
+                acc.evaluations += 1;
+                acc.transitions += 1;
+                let text = format!("--- main.sy\n{}--- a.sy\n{}--- b.sy\n{}", files[MAIN], files["/p/a.sy"], files["/p/b.sy"]);
+                let got = match compile(&files, MAIN, true) {
+                    Outcome::Ok(lua) => {
+                        let lr = run_lua(&lua, 2_000_000);
+                        match lr.end {
+                            LuaEnd::Done => Ok(lr.out),
+                            other => Ok(vec![format!("!!{:?}", other)].into_iter().chain(lr.out.into_iter()).collect()),
+                        }
+                    }
+                    other => Err(other.short()),
+                };
+                distinct.insert(format!("{:?}", got));
+                if got.as_ref().ok() != Some(&want) {
+                    acc.outcome("entry:WRONG");
+                    acc.fail(Failure {
+                        sig: "entry-point-or-module-global-depends-on-order".into(),
+                        preds: vec![],
+                        detail: format!("main order {:?}, a order {:?}, b order {:?}\nexpected {:?}\ngot {:?}\n{}", mp, ap, bp, want, got, text),
+                        case: json!({"engine": "c11", "files": files_json(&text), "expected": want}),
+                        size: 100 + text.len(),
+                    });
+                } else {
+                    acc.outcome("entry:main-start-runs-in-every-order");
+                    acc.traces_validated += 1;
+                }
+            }
+        }
+    }
+    acc.states += 1;
+    acc.nontrivial(fnv(b"entry-family"));
+    acc.count("entry_family_distinct_behaviours", distinct.len() as u64);
+}
+
 fn ext() -> Top {
     Top::External { name: "print".into(), ty: "fn *X -> void".into() }
 }
@@ -361,8 +437,7 @@ pub fn run(run: &mut Run) {
         acc.traces_validated += accepted as u64;
         let mut fail = |acc: &mut Stats, sig: &str, detail: String, text: &str, preds: Vec<String>| {
             acc.outcome(sig);
-            let mut files = serde_json::Map::new();
-            files.insert(MAIN.to_string(), json!(text));
+            let files = files_json(text);
             acc.fail(Failure { sig: sig.into(), preds, detail, case: json!({"engine": "c11", "files": files, "expected": outcomes.first()}), size: lab.edges.len() * 1000 + text.len() });
         };
         let kinds: Vec<String> = lab.edges.iter().map(|e| format!("{:?}", e.2)).collect();
@@ -414,7 +489,8 @@ pub fn run(run: &mut Run) {
         }
     });
     run.stats = Stats::merge_all(accs);
-    run.rule = "programs with 3 (thorough: also 4) mutable globals whose initialisers are related by up to k edges, each edge one of: read, read inside a called function, read inside a function that is only stored, assignment / compound assignment inside a called function, blob literal field (up to k edges), or a read wrapped in one of 18 further forms (then / else / condition, case scrutinee / arm / else, tuple, list, call argument, unary, and-operand, else-branch / loop / nested call inside a called function, function alias, variant payload, index, immediately called lambda; alone and combined with one plain read); every permutation of the top-level statements (blob declaration, globals, start) x helper functions before / after, plus the same program with one global moved to an imported file (cyclic import) under every order of that file and a sample of main's orders; non-trivial = every labelling that is not inherently order-dependent; distinct by edge labelling".into();
+    entry_family(&mut run.stats);
+    run.rule = "programs with 3 (thorough: also 4) mutable globals whose initialisers are related by up to k edges, each edge one of: read, read inside a called function, read inside a function that is only stored, assignment / compound assignment inside a called function, blob literal field (up to k edges), or a read wrapped in one of 18 further forms (then / else / condition, case scrutinee / arm / else, tuple, list, call argument, unary, and-operand, else-branch / loop / nested call inside a called function, function alias, variant payload, index, immediately called lambda; alone and combined with one plain read); every permutation of the top-level statements (blob declaration, globals, start) x helper functions before / after, plus the same program with one global moved to an imported file (cyclic import) under every order of that file and a sample of main's orders; plus a three-file project whose modules define their own `start` and `g` under every order of each file's statements (4! x 3! x 4! orders); non-trivial = every labelling that is not inherently order-dependent; distinct by edge labelling".into();
     run.bounds = json!({"globals": if thorough {"3 with <=3 edges, 4 with <=2 edges"} else {"3 with <=2 edges"}, "labelings": labs.len(), "edge_kinds": KINDS.iter().chain(WRAPPED.iter()).map(|k| format!("{:?}", k)).collect::<Vec<_>>()});
     run.assumptions = vec![
         "reference: RefSylt under every order of the value globals; orders that read or assign an uninitialised global are invalid; if the valid orders disagree the program is inherently order-dependent and excluded; if no order is valid the initialisers are cyclic".into(),
@@ -423,9 +499,12 @@ pub fn run(run: &mut Run) {
 }
 
 pub fn replay(case: &serde_json::Value) -> Option<(String, String)> {
-    let text = case["files"][MAIN].as_str()?;
+    let mut files = Files::new();
+    for (k, v) in case["files"].as_object()? {
+        files.insert(k.clone(), v.as_str()?.to_string());
+    }
     let want: Option<Vec<String>> = case["expected"].as_array().map(|a| a.iter().filter_map(|x| x.as_str().map(|s| s.to_string())).collect());
-    match compile_src(text) {
+    match compile(&files, MAIN, true) {
         Outcome::Ok(lua) => {
             let r = run_lua(&lua, 2_000_000);
             match want {
